@@ -6,3 +6,12 @@ claim("C15",
       "ValidDeleteQuota and TLC checks for each event that accept => result well-formed and equal to the admitted objects, reject => recorded topology unchanged.",
       "Trusted: TLC, controller-runtime fake client, the harness projection of quotaInfoMap/quotaHierarchyInfo/namespaceToQuotaMap. Feature gates at defaults; no force-update/tree-root labels.",
       "DESIGN.md 5 C15")
+claim("C01",
+      "TLA+ specs QuotaAccounting (from-scratch figures) + QuotaAccountingImpl (incremental algorithm): TLC exhaustive MC of Impl = from-scratch, one TLC witness history per reachable model state + TLC-simulated + seeded random/concurrent histories executed on the real GroupQuotaManager, every reported figure after every operation validated by TLC against the from-scratch operators (trace validation)",
+      "TLC proves on the algorithm-level model (delta propagation with max-limiting, min-raising, clamping, re-parent = delete + re-add, full rebuild) that the stored figures equal the "
+      "from-scratch figures in every reachable state of the bounded model; every such state is then driven on the real manager and, together with long random histories "
+      "(two dimensions, non-preemptible pods, concurrent batches on distinct pods, fresh-manager rebuilds), each reported Used/Request/ChildRequest/Self*/NonPreemptible* figure and each pod's isAssigned flag "
+      "is compared by TLC with the recursive from-scratch definition after every single operation.",
+      "Trusted: TLC, the projection of GetQuotaSummaries(true). Groups share the fixed dimension set {cpu,memory}; histories respect what the webhook (C15) admits; feature gates at defaults; "
+      "root/system/default groups not asserted; sub-call interleavings are covered only at quiescence of concurrent batches.",
+      "DESIGN.md 5 C01")
